@@ -42,7 +42,8 @@ EXPLANATION = (
     "parsed.normalized and the server consults middleware with request.normalized_url, which "
     "returns parsed_url.normalized. "
     "(N4) upload() exchanges only the scheme prefix of the caller's URL (no unbounded str.replace on the wire URL). "
-    "(N5) the request line sent (parsed.normalized) has itself passed validate_url."
+    "(N5) the request line sent (parsed.normalized) has itself passed validate_url. "
+    "(N6) on the server the text given to <Request>.from_line derives from the read buffer only by cutting at the terminator and decoding: no trimming / case-folding / replacing call lies on its definition chain (helpers inlined)."
 )
 
 
@@ -252,6 +253,60 @@ def rule_n5(chk: Check) -> None:
     chk.ob("N5", f"{gs.key}: `{wire}` is size-checked before it is sent", ok)
 
 
+ALTERING = {
+    "strip", "rstrip", "lstrip", "lower", "upper", "casefold", "replace", "translate", "removeprefix", "removesuffix",
+    "expandtabs", "title", "capitalize", "swapcase", "normalize", "unquote", "quote", "unquote_plus", "quote_plus", "sub",
+}
+
+
+def received_line_fidelity(chk: Check, R: str, consequence: str) -> None:
+    """Server side of the wire: the text handed to the request parser is the
+    received line - the bytes before the terminator, decoded - and nothing else.
+    Trimming or case-folding it between the split and the parser changes the
+    path / query the client asked for (a query may end in a blank)."""
+    from ..cfg import Builder, inline_self_methods
+
+    chk.rule(R, "the server parses the received request line itself: between the read buffer and <Request>.from_line the line is only cut at the terminator and decoded, never trimmed, case-folded or otherwise rewritten")
+    ci = chk.proj.cls("server.protocol:GeminiServerProtocol")
+    dr = ci.methods.get("data_received")
+    if dr is None:
+        chk.floor(R, "data_received", 0, 1)
+    g = Builder(chk.proj, inline_self_methods, 4).build(dr)
+    d = Defs(g)
+    sites = []
+    for n in g.nodes:
+        if n.ast is None or n.kind not in ("stmt", "test"):
+            continue
+        for c in calls(n.ast):
+            if method_call(c) and method_call(c)[1] == "from_line" and (dotted(method_call(c)[0]) or "").endswith("Request") and c.args:
+                sites.append((n, c))
+    chk.require(R, dr.key, "request parser calls reached from data_received", len(sites), 1, "the received line is never parsed")
+    for node, call in sites:
+        seen, todo, bad = set(), [(node, call.args[0])], []
+        while todo:
+            at, e = todo.pop()
+            for x in walk(e):
+                if isinstance(x, ast.Call):
+                    nm = method_call(x)[1] if method_call(x) else (dotted(x.func) or "").split(".")[-1]
+                    if nm in ALTERING:
+                        bad.append((at, x))
+                if isinstance(x, ast.Name) and (at.id, x.id) not in seen:
+                    seen.add((at.id, x.id))
+                    for dn, val, _sel in d.at(at, x.id):
+                        if val is not None:
+                            if _sel == "param" and dn.stack:
+                                dn = g.nodes[dn.stack[-1]]
+                            todo.append((dn, val.value if isinstance(val, ast.AugAssign) else val))
+        ok = not bad
+        for at, x in bad[:1]:
+            chk.finding(
+                R, (node.func or dr).key, f"line-rewritten:{norm(x)[:50]}",
+                f"the line parsed by `{norm(call.func)}` passes through `{norm(x)[:70]}` after it was cut from the read buffer: the parser no longer sees the bytes the client sent (e.g. a query that ends in a blank loses it), so {consequence}",
+                at.where(),
+            )
+        chk.ob(R, f"{(node.func or dr).key}: `{norm(call)[:50]}` receives the received line unaltered", ok, evals=len(seen) + 1)
+
+
 def wire_fidelity(chk: Check, rule: str, what: str) -> None:
     """N1-N3 reported under another property's rule id: the URL a component is
     handed (middleware, upstream, TOFU key) has the components the caller asked
@@ -273,5 +328,6 @@ def run(chk: Check) -> None:
     rule_n3(chk)
     rule_n4(chk)
     rule_n5(chk)
+    received_line_fidelity(chk, "N6", "the server parses other components than the client put on the wire")
     chk.trusted = ["CPython ast parser", "engine abstract evaluator", "urllib.parse: .hostname is lower-cased and unbracketed, urlunparse joins the six components"]
     chk.assumptions = ["idempotence / meaning preservation over all URLs is not decided; only the listed component samples are evaluated abstractly"]
